@@ -3,6 +3,8 @@ package main
 import (
 	"fmt"
 	"go/token"
+	"go/types"
+	"strings"
 
 	"golang.org/x/tools/go/ssa"
 )
@@ -96,4 +98,19 @@ func (f *frame) lookupLocal(name string, at *ssa.BasicBlock) (ssa.Value, bool) {
 		return nil, false
 	}
 	return best.X, true
+}
+
+// resolveSort maps a spec sort name or a Go type name to an SMT sort (and the Go type if any).
+func (c *Ctx) resolveSort(pkg *types.Package, name string) (string, types.Type) {
+	s := specSort(name)
+	if t := specGoType(name); t != nil {
+		return s, t
+	}
+	if s != name || name == "" || strings.HasPrefix(name, "(") {
+		return s, nil
+	}
+	if t := c.eng.lookupType(pkg, name); t != nil {
+		return c.sortOf(t), t
+	}
+	return name, nil
 }
